@@ -45,7 +45,7 @@ CANARY_OPS = {"C01": None, "C02": None, "C05": {"interchange"}, "C06": {"normal_
 
 OPS = {
     "C01": None,   # everything
-    "C02": {"gen", "ctor", "retype", "then", "thenSelf", "tensorR", "tensorL", "tensorSelf", "dagger", "slice", "index"},
+    "C02": {"gen", "ctor", "retype", "then", "thenSelf", "tensorR", "tensorL", "tensorSelf", "dagger", "slice", "rslice", "index"},
     "C05": {"interchange"},
     "C06": {"interchange", "normal_form", "normalize", "foliate"},
 }
